@@ -843,9 +843,25 @@ def w24(ctx, rid):
     c13.l26(ctx, rid)
 
 
+def w25(ctx, rid):
+    """migration preserves every record: `migrate_blob` reports success only after the copy pipeline ran - every ok return is
+    preceded by an ok `process_blob_with` (no shortcut `already at the target version => Ok` that produces no output blob)"""
+    prog = ctx.prog
+    f = prog.fns.get('tools::migration::migrate_blob')
+    if f is None:
+        raise core.AnchorLost('tools::migration::migrate_blob')
+    S = core.Summ(prog, lambda c: c.name == 'process_blob_with')
+    key = 'migration-runs-the-copy|tools::migration::migrate_blob'
+    if S.must('tools::migration::migrate_blob'):
+        ctx.ok(rid, key, f.where(), 'every ok return follows an ok process_blob_with')
+    else:
+        ctx.bad(rid, key, f.where(), 'migrate_blob can return Ok without having run the copy pipeline: no output blob is produced and a directory-wise migration silently loses every record of that blob')
+
+
 RULES = [
     Rule('C16.W23', 'the offline reader skips record data only after a header validation failure', w23, 1),
     Rule('C16.W24', 'after a clean close the index file of every closed blob is current (C13.L26 instance)', w24, 1),
+    Rule('C16.W25', 'migrate_blob reports success only after the copy pipeline ran', w25, 1),
     Rule('C16.W1', 'the tools\' record writer stamps its own position into blob_offset (and recomputes the header CRC) before serialising a header', w1, 1),
     Rule('C16.W2', 'the recovered output is re-validated whenever validation was requested', w2, 1),
     Rule('C16.W3', 'the tools never truncate their own input: input != output and header read precede the create; in-place recovery renames first', w3, 2),
